@@ -41,6 +41,13 @@ type capBuf struct {
 	b  []byte
 }
 
+func batchOf(h Hist) int {
+	if h.Batch < 1 {
+		return 1
+	}
+	return h.Batch
+}
+
 func (c *capBuf) Write(p []byte) (int, error) {
 	c.mu.Lock()
 	if len(c.b) < 8192 {
@@ -88,16 +95,19 @@ func (r *run) startCLI() error {
 		return errInconclusive{"VERIF_RARE_BIN is not set (checks.json: bin)"}
 	}
 	args := []string{"filter"}
+	// the documented spellings of the same request, chosen by a value of the case (no randomness here)
+	spell := (len(r.h.Ops)*7 + r.h.Initial + batchOf(r.h)) % 4
 	if r.h.Reopen {
-		args = append(args, "-F")
+		// -F "Same as -f, but will reopen recreated files": giving -f next to it changes nothing
+		args = append(args, [][]string{{"-F"}, {"-f", "-F"}, {"-F", "-f"}, {"--follow", "--reopen"}}[spell]...)
 	} else {
-		args = append(args, "-f")
+		args = append(args, [][]string{{"-f"}, {"--follow"}, {"-f"}, {"-f"}}[spell]...)
 	}
 	if r.h.Poll {
 		args = append(args, "--poll")
 	}
 	if r.h.Tail {
-		args = append(args, "--tail")
+		args = append(args, [][]string{{"--tail"}, {"-t"}}[spell%2]...)
 	}
 	batch := r.h.Batch
 	if batch < 1 {
